@@ -1001,12 +1001,12 @@ def explain_attributes(trees, f):
         parts.append(("C13-union-member-order", f"{q} @{changed}: read by an earlier numeric member of the union"))
     if nil_before != nil_after:
         bare = not node[2] and not node[3]
-        if nil_before is None and nil_after == "true" and bare and not before:
+        if nil_before is None and nil_after == "true" and bare:
+            # an element without text and children (with or without attributes) whose name is xsi:nil somewhere:
+            # its class is nillable (reduce_classes merges the flag over all occurrences) and has nothing to write
             if not any(is_nil(e) for e in occurrences(trees).get(q, [])):
                 return None
-            parts.append(("C13-empty-leaf-next-to-nil", f"<{q}/> beside an xsi:nil {q}"))
-        elif nil_before is None and nil_after == "true" and bare and class_nillable(trees).get(q) is True:
-            parts.append(("C13-nillable-from-first-occurrence", f"<{q}> with attributes and no content; the occurrence of {q} that is mapped first is xsi:nil"))
+            parts.append(("C13-empty-leaf-next-to-nil", f"<{q}> without content beside an xsi:nil {q}"))
         elif nil_before == "true" and nil_after is None and bare and absent_nillable_children(trees, q):
             parts.append(("C13-absent-nillable-rendered-nil", f"xsi:nil {q} gets {sorted(absent_nillable_children(trees, q))} invented and is not empty any more"))
         else:
@@ -1179,46 +1179,6 @@ def region_order(trees, only=None):
     return None
 
 
-def class_nillable(trees):
-    """C13-nillable-from-first-occurrence: element name -> the nillable flag its class gets: that of the occurrence
-    that is mapped first (documents in order, inside a document in `flatten_order`), not of any occurrence"""
-    out = {}
-    for t in trees:
-        for e in flatten_order(t):
-            out.setdefault(e["q"], is_nil(e))
-    return out
-
-
-def explain_nillable_first(trees, f):
-    """exactly the two things the unchanged code does with an element name that is xsi:nil in one place and not in
-    another (both with attributes / children, i.e. both mapped as occurrences of the class): the class is not nillable
-    (first mapped occurrence is not nil) -> the sample holding a nil one is rejected, `Unknown property <parent>:<name>`;
-    the class is nillable (first mapped occurrence is nil) -> an occurrence that has attributes but no content comes
-    back with xsi:nil="true" added to them"""
-    flags = class_nillable(trees)
-    if f["kind"] == "rejected" and f["exc"] == "ParserError" and f["sample"] is not None:
-        occ = occurrences(trees)
-
-        def message(parent, child):
-            """the parser's words for a child it cannot place: a field whose type is the class alone has no match for
-            the nil element; a field that is class | primitive (the name also occurs as a leaf with a value under this
-            parent; an empty leaf is typed anySimpleType, which filter_types drops) goes through the union node"""
-            plain = any(not class_like(c) and (c["t"] or "") for e in occ[parent] for c in e["c"] if c["q"] == child)
-            return f"Failed to parse union node: {child}" if plain else f"Unknown property {parent}:{child}"
-
-        def walk(e):
-            for c in e["c"]:
-                if is_nil(c) and flags.get(c["q"]) is False and f["text"] == message(e["q"], c["q"]):
-                    return f"{c['q']} is xsi:nil under {e['q']}, but the occurrence of {c['q']} that is mapped first is not"
-                w = walk(c)
-                if w:
-                    return w
-            return None
-
-        return walk(trees[f["sample"]])
-    return None
-
-
 def explain_xml(trees, f):
     """(finding id, why) when the listed finding predicts exactly this failure on these samples, else None.
     A finding covers single failures of the kind and at the place the unchanged code produces them; every other
@@ -1227,8 +1187,7 @@ def explain_xml(trees, f):
         w = explain_empty_occurrence(trees, f)
         if w:
             return "C13-empty-occurrence-ignored", w
-        w = explain_nillable_first(trees, f)
-        return ("C13-nillable-from-first-occurrence", w) if w else None
+        return None
     if f["kind"] == "text":
         w = explain_union(trees, f)
         return ("C13-union-member-order", w) if w else None
@@ -1329,14 +1288,10 @@ def json_region(docs, failures):
 
 
 # ------------------------------------------------------------------ oracles as correspondence ops and for the search
-NIL_COMPLEX = "C13-nillable-from-first-occurrence"
-
-
 def clean_xml_docs(rng, hetero=0.0):
     """samples of a hidden regular model; with hetero=0 they avoid the listed defect regions mostly.
-    Elements with attributes / children are nillable too once the defect that goes with them is a listed finding
-    (until then every such model would end in the same already reported violation)"""
-    m = S.gen_xml_model(rng, hetero=hetero, group_min=2 if hetero == 0 else 1, nil_complex=0.12 if NIL_COMPLEX in listed_findings() else 0.0)
+    Elements with attributes / children are nillable too."""
+    m = S.gen_xml_model(rng, hetero=hetero, group_min=2 if hetero == 0 else 1, nil_complex=0.12)
     return [
         S.to_xml(S.instance(rng, m, 2 if hetero == 0 else 1), pretty=rng.random() < 0.3, default_ns=rng.choice(S.NAMESPACES))
         for _ in range(rng.randint(1, 4))
@@ -1350,7 +1305,6 @@ WITNESS_XML = {
     "C13-empty-leaf-next-to-nil": [f'<r xmlns:xsi="{S.XSI}"><i xsi:nil="true"/><i/></r>'],
     "C13-absent-nillable-rendered-nil": [f'<r xmlns:xsi="{S.XSI}"><a>1</a><n xsi:nil="true"/></r>', "<r><a>2</a></r>"],
     "C13-field-order-greedy-merge": ["<r><x><b>1</b><c>1</c></x><x><v>1</v><b>1</b></x><x><v>1</v><c>1</c></x></r>"],
-    "C13-nillable-from-first-occurrence": [f'<r xmlns:xsi="{S.XSI}"><i xsi:nil="true"/><i><a>1</a></i></r>'],
 }
 WITNESS_JSON = {
     "C13-json-string-typed-by-lexical-form": [{"a": "12"}],
@@ -1359,6 +1313,10 @@ HAND_OK_XML = [
     ["<r><a>1</a><b>x</b><a>2</a><b>y</b><c>z</c></r>"],
     ['<p:r xmlns:p="urn:p" xmlns:q="urn:q" q:at="1" at2="v"><p:a>1</p:a><q:b>x</q:b><c>z</c></p:r>'],
     ["<r><p>hello <b>x</b> world</p></r>"],
+    # nil in one place, children / attributes + text in another, in both orders (fixed: c13e-01)
+    [f'<r xmlns:xsi="{S.XSI}"><i xsi:nil="true"/><i><a>1</a></i></r>'],
+    [f'<r xmlns:xsi="{S.XSI}"><i><a>1</a></i><i xsi:nil="true"/></r>'],
+    [f'<r xmlns:xsi="{S.XSI}"><i k="2" xsi:nil="true"/><i k="1">t</i></r>', f'<r xmlns:xsi="{S.XSI}"><i k="3">u</i></r>'],
     # a later sample with a run of two new children in front of a known one (seeded/C13-sorted-attrs-reversed-run)
     ['<order xmlns="urn:shop"><id>1001</id><customer>Jane</customer><priority>3</priority><total>19.9</total></order>',
      '<order xmlns="urn:shop"><id>1002</id><giftwrap>true</giftwrap><coupon>SPRING</coupon><total>5.25</total></order>'],
@@ -1625,7 +1583,7 @@ LEVEL_TEXT = (
     "occurrence, unused fields have defaults; the model predicts the generated fields exactly, checked field by field against the real generator); match_type picks the "
     "first live explicit type whose strict test accepts, and values inferred as int, bool, Decimal and float are read and written back unchanged by the converter models "
     "(only repr(float) is taken from outside); connected_components is the partition into maximal overlapping groups, independent of order; an interleaving marker of any "
-    "occurrence survives the merge (sequence_marker_kept) and a regular sequence group is written back in document order by EventGenerator.next_value (interleave_reproduced). "
+    "occurrence survives the merge (sequence_marker_kept), a class is nillable exactly when some occurrence of its name is xsi:nil (nillable_any_occurrence) and a regular sequence group is written back in document order by EventGenerator.next_value (interleave_reproduced). "
     "Three full-strength statements the code violates (union members read in fixed order, positional sequence numbers, greedy field order) are refuted by witnesses and "
     "proved under decidable hypotheses. Tied to /repo by correspondence of every core (the real ResourceTransformer on preloaded resources) and by the end-to-end oracle "
     "(whole pipeline, strict parse, re-serialisation; EVERY failure of a sample set is collected and each must be one a listed finding predicts: kind, place and new value) "
